@@ -143,7 +143,7 @@ func (g *gWorld) applyExchange(op *gOp, ent *gEnt, targetOK func(int) bool) stri
 		}
 		var hg, hc ecs.Entity
 		if t != -2 {
-			ex.WithRelation(allStaticTypes[relAdd])
+			g.exchWithRelation(ex, relAdd)
 			hg = ex.NewEntity(g.handle(t))
 			hc = ecs.NewBuilder(g.Wc, addIDs...).WithRelation(g.ids[relAdd]).New(g.handle(t))
 		} else {
@@ -164,7 +164,7 @@ func (g *gWorld) applyExchange(op *gOp, ent *gEnt, targetOK func(int) bool) stri
 			t = -2
 		}
 		if t != -2 {
-			ex.WithRelation(allStaticTypes[relAdd])
+			g.exchWithRelation(ex, relAdd)
 			ex.Add(ent.h, g.handle(t))
 			g.Wc.Relations().Exchange(ent.h, addIDs, nil, g.ids[relAdd], g.handle(t))
 			if t >= 0 {
@@ -208,7 +208,7 @@ func (g *gWorld) applyExchange(op *gOp, ent *gEnt, targetOK func(int) bool) stri
 			t = -2
 		}
 		if t != -2 {
-			ex.WithRelation(allStaticTypes[relAfter])
+			g.exchWithRelation(ex, relAfter)
 			ex.Exchange(ent.h, g.handle(t))
 			g.Wc.Relations().Exchange(ent.h, addIDs, remIDs, g.ids[relAfter], g.handle(t))
 			ent.target = -1
@@ -956,4 +956,14 @@ func (g *gWorld) lateStep(s gStep, included func(t int) bool) string {
 	pick.comps[lateKey+k] = true
 	g.label("a component type registered after the filter was configured, on a matching entity")
 	return ""
+}
+
+// exchWithRelation configures the long-lived Exchange helper's relation component - only when it is
+// not configured for that component already (so that a later Adds() has to keep it working).
+func (g *gWorld) exchWithRelation(ex *generic.Exchange, rel int) {
+	if g.exchRel == rel+1 {
+		return
+	}
+	ex.WithRelation(allStaticTypes[rel])
+	g.exchRel = rel + 1
 }
